@@ -805,7 +805,7 @@ def mc_uci(work, rep, tier, liveness):
     """TLC on Uci.tla: the intended design satisfies the properties for every interleaving of the
     bounded scripts; each deviation the code first had is rejected by the same model."""
     quick = tier == "quick"
-    base = {"MaxCmds": 3 if quick else 4, "NS": 2, "MaxDepth": 2, "IdGuard": "TRUE", "StopOnOk": "TRUE", "ShutdownWaits": "TRUE", "TimerInLoop": "TRUE", "OutCap": 0}
+    base = {"MaxCmds": 3 if quick else 4, "NS": 2, "MaxDepth": 2, "IdGuard": "TRUE", "StopOnOk": "TRUE", "ShutdownWaits": "TRUE", "TimerInLoop": "TRUE", "AtomicClaim": "TRUE", "OutCap": 0}
     cfg = vlib.cfg_text(spec="Spec", constants=base, invariants=UCI_INV, view="View")
     r = vlib.tlc(work, "Uci", cfg, workers=vlib.NCPU, timeout=3300, heap="6g" if quick else "16g", name="Uci-safety", coverage=True)
     vlib.need_tlc_ok(r, "Uci safety")
@@ -845,7 +845,7 @@ def mc_uci(work, rep, tier, liveness):
             raise Inconclusive("Uci.tla (simulation of a larger configuration): %s" % r.error)
         info["simulated_larger_configuration"] = {"constants": big, "behaviours_per_worker": 20000, "states": r.generated, "wall_s": round(r.wall, 1)}
     # non-vacuity: the deviations must be rejected
-    dev = [("IdGuard", "FALSE", ["NoStaleBest"], []), ("ShutdownWaits", "FALSE", ["NoPanic"], []),
+    dev = [("IdGuard", "FALSE", ["NoStaleBest"], []), ("ShutdownWaits", "FALSE", ["NoPanic"], []), ("AtomicClaim", "FALSE", ["AtMostOneBest"], []),
            ("StopOnOk", "FALSE", [], ["StopAnswered"]), ("TimerInLoop", "FALSE", [], ["StopAnswered"])]
     rejected = []
     for name, val, inv, props in dev:
